@@ -275,9 +275,13 @@ def written_agg(prog, op):
     v = op.get("value")
     if v is None:
         v = op["args"][-1]
-    for f in forms(prog, v, 2, op.get("assumptions", ())):
+    from engine.analysis import _ctor_norm
+    from engine.mir import intern
+    for f in forms(prog, v, 3, op.get("assumptions", ())):
         if f[0] == "agg":
-            return f
+            # fields taken from another constructor (`S { a, ..S::new(..) }`) are that constructor's fields
+            flds = tuple(("fld", n, _ctor_norm(prog, x)) for _, n, x in f[3])
+            return intern(("agg", f[1], f[2], flds))
     return v
 
 
